@@ -258,12 +258,45 @@ func init() {
 		}
 		return Sl{arr, "0", tInt(cnt), tFalse, t.Elem}, st2
 	})
-	reg("encoding/hex.DecodeString", "decodes a hexadecimal string (partial function of the text)", func(x *Exec, n *ast.CallExpr, recv ast.Expr, st *State) (Val, *State) {
-		_, st1 := x.eval(n.Args[0], st)
+	reg("encoding/hex.DecodeString", "decodes a hexadecimal string: a partial function of the text (hexOK; hexlen bytes hexbyte(s,i)), error iff not decodable", func(x *Exec, n *ast.CallExpr, recv ast.Expr, st *State) (Val, *State) {
+		sv, st1 := x.eval(n.Args[0], st)
 		c := x.c
+		c.usesStr = true
+		for _, f := range []string{"hexOK", "hexlen", "hexbyte"} {
+			c.used[f] = true
+		}
+		s := sv.(Sc).T
+		ok := app("hexOK", s)
 		e := c.fresh("hexerr", SInt)
-		c.assumeHere( tOr(tEq(e, "0"), localErr(e)))
-		return Tup{[]Val{c.freshVal("hexbytes", byteSeqType(), nil), scInt(e)}}, st1
+		c.assumeHere(tAnd(tImp(ok, tEq(e, "0")), tImp(tNot(ok), localErr(e))))
+		c.used["hexarr"] = true
+		arr := app("hexarr", s)
+		ln := c.define("hexn", SInt, tIte(ok, app("hexlen", s), "0"))
+		return Tup{[]Val{Sl{Sc{arr, arrSort(SInt, SInt)}, "0", ln, tNot(ok), types.Typ[types.Uint8]}, scInt(e)}}, st1
+	})
+	reg("encoding/hex.EncodeToString", "lower-case hexadecimal rendering of the bytes (hexenc): decodes back to the same bytes", func(x *Exec, n *ast.CallExpr, recv ast.Expr, st *State) (Val, *State) {
+		bv, st1 := x.eval(n.Args[0], st)
+		c := x.c
+		c.usesStr = true
+		c.used["hexenc"] = true
+		b := c.normView(bv.(Sl))
+		return Sc{app("hexenc", b.Arr.(Sc).T, b.Len), SStr}, st1
+	})
+	reg("strconv.FormatFloat", "FormatFloat(x, 'e', -1, 64): the shortest rendering that parses back to x (ffmt)", func(x *Exec, n *ast.CallExpr, recv ast.Expr, st *State) (Val, *State) {
+		v, st1 := x.eval(n.Args[0], st)
+		for _, a := range n.Args[1:] {
+			_, st1 = x.eval(a, st1)
+		}
+		c := x.c
+		c.usesStr = true
+		f, ok1 := x.constOf(n.Args[1])
+		p, ok2 := x.constOf(n.Args[2])
+		bs, ok3 := x.constOf(n.Args[3])
+		if ok1 && ok2 && ok3 && f.String() == "101" && p.String() == "-1" && bs.String() == "64" {
+			c.used["ffmt"] = true
+			return Sc{app("ffmt", toReal(v.(Sc))), SStr}, st1
+		}
+		return Sc{c.fresh("fmtfloat", SStr), SStr}, st1
 	})
 	reg("sort.Search", "binary search: for a predicate that is monotone on [0,n) (false then true) returns the smallest index at which it is true, or n; the monotonicity is a proof obligation", func(x *Exec, n *ast.CallExpr, recv ast.Expr, st *State) (Val, *State) {
 		nv, st1 := x.eval(n.Args[0], st)
@@ -837,7 +870,9 @@ func init() {
 		ok := app("atoiOK", s)
 		e := c.fresh("atoierr", SInt)
 		c.assumeHere( tAnd(tImp(ok, tEq(e, "0")), tImp(tNot(ok), localErr(e))))
-		v := c.define("atoiv", SInt, tIte(ok, app("atoi", s), "0"))
+		// on failure the value is 0 for syntax errors but the clamped extreme for range errors: unspecified here
+		v := c.fresh("atoiv", SInt)
+		c.assumeHere(tAnd(tImp(ok, tEq(v, app("atoi", s))), tLe("(- 9223372036854775808)", v), tLe(v, "9223372036854775807")))
 		return Tup{[]Val{scInt(v), scInt(e)}}, st1
 	})
 }
@@ -922,7 +957,8 @@ func (x *Exec) fprintf(n *ast.CallExpr, st *State, mode string) (Val, *State) {
 		t := x.typeOf(a)
 		k, _ := classify(t)
 		switch {
-		case k == kSlice && (verb == 's' || verb == 'v'):
+		case k == kSlice && verb == 's' && isByteSlice(t):
+			// %s of a []byte prints the bytes (%v would print the decimal list "[97 98]": not modelled, falls to the default)
 			pieces = append(pieces, v.(Sl))
 		case k == kStr && (verb == 's' || verb == 'v'):
 			pieces = append(pieces, x.strAsSeq(v.(Sc).T))
@@ -1210,4 +1246,13 @@ func invalidateScanViews(c *Ctx, v Val) Val {
 		return Pt{x.Nil, invalidateScanViews(c, x.Elem), x.T}
 	}
 	return v
+}
+
+func isByteSlice(t types.Type) bool {
+	sl, ok := types.Unalias(t).Underlying().(*types.Slice)
+	if !ok {
+		return false
+	}
+	b, ok := sl.Elem().Underlying().(*types.Basic)
+	return ok && b.Kind() == types.Uint8
 }
